@@ -14,6 +14,11 @@ def run(tier, replay=None):
         tr, failed = DC.observe(c, decls, False, 0, features=(("docs",) if docs else ()), tag=tag)
         if failed:
             src, g, diags = failed[0]
+            macro = [d for d in diags if d.get("code") is None]      # an error raised by the derive itself carries no rustc code
+            if macro:
+                rp = c.replay_file("derive_rejects_supported_declaration%s.rs" % tag, open(src).read())
+                c.violation("derive-rejects", "the derive itself rejects a declaration of the supported grammar (docs=%s): %s" % (docs, macro[0]["message"][:300]), rp)
+                continue
             raise vlib.ToolError("a generated derive program does not compile (grammar/renderer problem, or the derive rejects a supported definition: that is C13's finding): %s\n%s" % (src, "\n".join(x["rendered"] for x in diags[:2])))
         DC.validate_all(c, "C09", tr, tag)
     c.cov["exhaustive"] = False
